@@ -341,3 +341,84 @@ func udpSizePhase(run *mon.Run, bin, dir string) {
 	run.Set("udp_size_probe_datagrams_longer_than_the_effective_size", cutDatagrams)
 	run.Set("udp_size_lines_at_the_sink", linesJudged)
 }
+
+// cpuLimitedDefaults: "otherwise from the built-in default" must not depend on the host. The collector is started
+// with no source naming the four worker counts, on one CPU (taskset -c 0), on two (taskset -c 0,1) and with
+// GOMAXPROCS=2 / GOMAXPROCS=1 in the environment; the documented default (200 workers per protocol) must be
+// what /flow reports in each.
+func cpuLimitedDefaults(run *mon.Run, bin, dir string) {
+	type lim struct {
+		name string
+		wrap []string
+		env  []string
+	}
+	lims := []lim{
+		{"one CPU (taskset -c 0)", []string{"taskset", "-c", "0"}, nil},
+		{"GOMAXPROCS=2 in the environment", nil, []string{"GOMAXPROCS=2"}},
+		{"two CPUs (taskset -c 0,1)", []string{"taskset", "-c", "0,1"}, nil},
+		{"GOMAXPROCS=1 in the environment", nil, []string{"GOMAXPROCS=1"}},
+	}
+	if !run.Thorough() {
+		lims = lims[:2]
+	}
+	var wg sync.WaitGroup
+	for li, l := range lims {
+		wg.Add(1)
+		go func(li int, l lim) {
+			defer wg.Done()
+			pdir := filepath.Join(dir, fmt.Sprintf("cfgcpu%d", li))
+			os.MkdirAll(pdir, 0o755)
+			sink, err := newSinkT()
+			if err != nil {
+				run.HarnessError(err.Error())
+				return
+			}
+			defer sink.close()
+			statsPort := reservedPort()
+			conf := map[string]string{
+				"mq-name": "rawSocket", "mq-config-file": "mq.conf", "ipfix-rpc-enabled": "false",
+				"stats-format": "rest", "stats-http-port": strconv.Itoa(statsPort), "stats-http-addr": "127.0.0.1",
+				"pid-file": filepath.Join(pdir, "vflow.pid"), "ipfix-tpl-cache-file": filepath.Join(pdir, "i.tpl"), "netflow9-tpl-cache-file": filepath.Join(pdir, "n.tpl"),
+			}
+			for _, p := range []string{"ipfix", "sflow", "netflow5", "netflow9"} {
+				conf[p+"-port"] = strconv.Itoa(reservedPort())
+			}
+			writeConf(pdir, conf, sink.port)
+			desc := "no source names the worker counts; host limit: " + l.name
+			col, err := startCollector(bin, pdir, l.env, nil, l.wrap)
+			if err != nil {
+				run.Inconclusive(desc + ": cannot start: " + err.Error())
+				return
+			}
+			defer col.kill()
+			var fl flowStats
+			for d := time.Now().Add(15 * time.Second); time.Now().Before(d) && col.alive(); time.Sleep(10 * time.Millisecond) {
+				if f, err := getFlow("127.0.0.1", statsPort); err == nil && len(f) >= 4 {
+					fl = f
+					break
+				}
+			}
+			run.Eval(1)
+			run.Distinct(desc)
+			if fl == nil {
+				run.Inconclusive(desc + ": /flow never answered: " + clip(col.stderr(), 300))
+				return
+			}
+			time.Sleep(300 * time.Millisecond)
+			if f, err := getFlow("127.0.0.1", statsPort); err == nil {
+				fl = f
+			}
+			for _, p := range []struct{ key, js string }{{"ipfix-workers", "IPFIX"}, {"sflow-workers", "SFlow"}, {"netflow5-workers", "NetflowV5"}, {"netflow9-workers", "NetflowV9"}} {
+				if got := int(fl[p.js]["Workers"]); got != 200 {
+					run.Violation("config:effective-setting:"+p.key, fmt.Sprintf("%s: the collector reports %d %s, the built-in default is 200 [no env, no file, no flag → default]", desc, got, p.key),
+						map[string]interface{}{"host_limit": l.name, "wrap": l.wrap, "env": l.env, "flow": fl})
+					break
+				}
+			}
+			run.Add("default_worker_counts_read_back_under_a_cpu_limit", 1)
+			col.cmd.Process.Signal(syscall.SIGTERM)
+			col.wait(10 * time.Second)
+		}(li, l)
+	}
+	wg.Wait()
+}
